@@ -21,7 +21,8 @@ FLOORS = {"ref_retargets": {"quick": 500, "thorough": 8000}, "ref_target_ticks":
           "ref_republished_same": {"quick": 400, "thorough": 6000}, "ref_unselected_ticks": {"quick": 500, "thorough": 8000},
           "ref_retarget_to_invalid": {"quick": 30, "thorough": 500}, "runs_compared": {"quick": 20000, "thorough": 300000},
           "coll_ref_retargets": {"quick": 150, "thorough": 2500}, "coll_ref_target_ticks": {"quick": 300, "thorough": 5000},
-          "coll_ref_retarget_while_old_target_removes": {"quick": 15, "thorough": 250}}
+          "coll_ref_retarget_while_old_target_removes": {"quick": 15, "thorough": 250},
+          "sibling_ref_retargets": {"quick": 150, "thorough": 2500}, "sibling_ref_unselected_ticks": {"quick": 150, "thorough": 2500}}
 BATCH = 25
 
 
@@ -54,11 +55,79 @@ def gen_coll_ref(rng, name):
     return c
 
 
+def gen_sibling_ref(rng, name):
+    """Selection between two ELEMENTS OF ONE list output (same owning output, same schema): references to siblings."""
+    from .prog import Case, S
+    end = rng.choice([25, 40])
+    c = Case(name, 0, end)
+    i, j = rng.sample([0, 1, 2], 2)
+    sc, v = [], 1
+    for t in sorted(rng.sample(range(0, end), rng.choice([8, 14, 20]))):
+        ops = []
+        for k in rng.sample([0, 1, 2], rng.choice([1, 1, 2, 3])):
+            v += 1
+            ops.append(f"[{k}]={v}")
+        sc.append(f"{t}|" + ",".join(ops))
+    c.cscripts[1] = sc
+    val = rng.choice([0, 1])
+    cs = [(rng.choice([0, 1, 2]), val)]
+    for t in sorted(rng.sample(range(3, end), rng.choice([3, 5, 8]))):
+        if rng.random() < 0.8:
+            val = 1 - val
+        cs.append((t, val))
+    c.scripts[3] = cs
+    c.meta.update(kind="sibling", elems=[i, j])
+    c.graphs["main"] = [S("l", "csrc", shape="tsl", uid=1), S("e0", "elem", "l", str(i)), S("e1", "elem", "l", str(j)),
+                        S("c", "src", uid=3, mode=0), S("r", "ite", "c", "e0", "e1", uid=4), S("", "rec", "r", uid=10),
+                        S("p", "pass", "r", uid=11), S("", "rec", "p", uid=12)]
+    return c
+
+
+def check_sibling(case, tr):
+    """Oracle: the same program over two SEPARATE outputs that carry the two elements' write histories (reference model)."""
+    from .gen_coll import write_log
+    from .prog import Case, S
+    res = Result(signature=case.text().split("\n", 1)[1])
+    run = tr.runs[0]
+    if tr.build_error or run.error:
+        res.violations.append(Violation(f"build/run failed: {tr.build_error or run.error}"))
+        return res
+    wl = dict(write_log(run).get(1, []))
+    twin = Case("twin", case.start, case.end)
+    twin.scripts[3] = list(case.scripts[3])
+    for n, k in enumerate(case.meta["elems"]):
+        sc = []
+        for t in sorted(wl):
+            vals = [int(op.split("=")[1]) for op in wl[t] if op.startswith(f"[{k}]=")]
+            if vals:
+                sc.append((t, vals[-1]))
+        twin.scripts[101 + n] = sc
+    twin.graphs["main"] = [S("e0", "src", uid=101, mode=1), S("e1", "src", uid=102, mode=1)] + \
+        [st for st in case.graphs["main"] if st.op not in ("csrc", "elem")]
+    twin.meta["skip_uids"] = [101, 102]
+    flat = M.flatten(twin)
+    mr = M.simulate(flat)
+    mism = compare_runs(twin, run, mr)
+    if mism:
+        mr_alt = M.simulate(flat, ref_invalid_notify=False)
+        if not compare_runs(twin, run, mr_alt):
+            mr, mism = mr_alt, []
+    if mism:
+        res.violations.append(Violation("selection between two elements of one list output differs from the same selection between two "
+                                        "separate outputs: " + "; ".join(mism[:3])))
+    st = mr.stats
+    res.counters = {"sibling_ref_retargets": st.get("ref_retargets", 0), "sibling_ref_target_ticks": st.get("ref_target_ticks", 0),
+                    "sibling_ref_unselected_ticks": st.get("ref_unselected_ticks", 0)}
+    res.nontrivial = st.get("ref_retargets", 0) >= 2
+    return res
+
+
 def generate(rng, tier, seed):
     n = 400 if tier == "quick" else 6000
     cases = [gen_case(rng, f"c13_{seed}_{k}", allow_ite=True, allow_fb=rng.random() < 0.3,
                       n_nodes=rng.choice([4, 6, 9, 14, 20])) for k in range(n)]
     cases += [gen_coll_ref(rng, f"c13_{seed}_coll{k}") for k in range(n // 4)]
+    cases += [gen_sibling_ref(rng, f"c13_{seed}_sib{k}") for k in range(n // 5)]
     from .witness import f12_case
     cases.append(f12_case(f"c13_{seed}_witnessF12"))
     return cases
@@ -147,6 +216,8 @@ def check(case, tr):
         return check_witness(case, tr)
     if case.meta.get("kind") == "coll":
         return check_coll(case, tr)
+    if case.meta.get("kind") == "sibling":
+        return check_sibling(case, tr)
     res = Result(signature=case.text().split("\n", 1)[1])
     if tr.build_error:
         res.violations.append(Violation(f"valid program rejected at build: {tr.build_error}"))
@@ -164,8 +235,29 @@ def check(case, tr):
         if not compare_runs(case, run, mr_alt):
             mr, mism = mr_alt, []
     if mism:
-        mr, vs = classify_with_emulations(case, flat, run, mism)
-        res.violations += vs
+        # known-finding emulations, under either reading of the silent retarget-to-unset corner
+        def cmp_alt(c, r, m):
+            return compare_runs(c, r, m)
+        best = None
+        for notify in (True, False):
+            for flags in ({"emulate_sampled_start": True}, {"emulate_stale": True}, {"emulate_sampled_start": True, "emulate_stale": True}):
+                mr2 = M.simulate(flat, ref_invalid_notify=notify, **flags)
+                if (mr2.stale or mr2.sampled or mr2.stale_armed) and not compare_runs(case, run, mr2):
+                    best = mr2
+                    break
+            if best:
+                break
+        if best is not None:
+            mr = best
+            if best.sampled:
+                res.violations.append(Violation(f"node with an all-Unchecked validity gate inside a nested graph ran at child start although "
+                                                f"its boundary source never ticked: (uid,t)={best.sampled[:3]}", "nested-start-samples-unset-source"))
+            if best.stale or best.stale_armed:
+                res.violations.append(Violation(f"node stays armed / user code ran at a cancelled wake-up time: runs (uid,t)={best.stale[:3]} "
+                                                f"armed (uid,t,slot)={best.stale_armed[:3]}", "cancelled-wakeup-still-evaluates"))
+        else:
+            mr, vs = classify_with_emulations(case, flat, run, mism)
+            res.violations += vs
     st = mr.stats
     res.counters = {k: st.get(k, 0) for k in ("ref_retargets", "ref_target_ticks", "ref_republished_same", "ref_unselected_ticks",
                                               "ref_retarget_to_invalid")}
